@@ -20,10 +20,12 @@ import (
 	"net"
 	"os"
 	"reflect"
+	"runtime"
 	"sort"
 	"strings"
 	"sync"
 	"sync/atomic"
+	"syscall"
 	"time"
 
 	"github.com/hashicorp/serf/serf"
@@ -1066,16 +1068,202 @@ func attempt(t *Trans, js []byte) (again bool, fatal string) {
 	return
 }
 
+// probeHookRace runs the schedule of the FedEmit.tla counterexample on the real hook wrappers: client c1 drops the
+// last reference to topic t (OnUnsubscribed: reference count updated, then - separately - the event is queued under
+// memberMu) while client c2 subscribes to t (OnSubscribed: count updated, event queued).  If c2's two steps fall
+// between c1's two steps the peer receives "subscribe t" and then "unsubscribe t" although t is subscribed locally.
+// The window is forced open by holding memberMu while c1 runs its first step; who gets the mutex next is up to the
+// Go runtime, hence the retries.  An observed inversion is an execution of the real code; none observed is no verdict.
+func waitGone(w *world) bool {
+	deadline := time.Now().Add(100 * time.Millisecond)
+	for time.Now().Before(deadline) {
+		if _, ok := w.A.VerifLocalTopics()["t"]; !ok {
+			return true
+		}
+		runtime.Gosched()
+	}
+	return false
+}
+
+func probeHookRace(tries int) {
+	res := map[string]interface{}{"kind": "probe", "probe": "hookrace", "reproduced": false, "tries": 0}
+	for i := 1; i <= tries; i++ {
+		res["tries"] = i
+		w := newWorld()
+		func() {
+			defer w.cleanup()
+			w.apply(Op{Op: "sub", C: "c1", T: "t"})
+			w.A.VerifLockMembers()
+			done := make(chan struct{})
+			go func() { w.apply(Op{Op: "unsub", C: "c1", T: "t"}); close(done) }()
+			if !waitGone(w) {
+				// the hook does not get past memberMu before it touches the reference count: no window (repaired code)
+				res["window"] = "closed"
+				w.A.VerifUnlockMembers()
+				<-done
+				return
+			}
+			time.Sleep(2 * time.Millisecond) // c1's hook is now waiting for memberMu
+			w.A.VerifUnlockMembers()
+			w.apply(Op{Op: "sub", C: "c2", T: "t"})
+			<-done
+			var order []string
+			for _, e := range w.peer.Queue().Events {
+				order = append(order, evOf(e).K)
+			}
+			if len(order) == 3 && order[1] == "sub" && order[2] == "unsub" {
+				res["reproduced"] = true
+				res["queued"] = order
+				res["local"] = w.A.VerifLocalTopics()
+			}
+		}()
+		if res["reproduced"].(bool) || res["window"] != nil {
+			break
+		}
+	}
+	if res["reproduced"].(bool) {
+		// second part: same schedule with the stream already up, then let the stream drain and read B's view
+		for i := 1; i <= tries; i++ {
+			w := newWorld()
+			ok := false
+			func() {
+				defer w.cleanup()
+				if m := w.apply(Op{Op: "hello", Mode: "ok", Clean: true, Next: 0}); m != "" {
+					return
+				}
+				w.apply(Op{Op: "sub", C: "c1", T: "t"})
+				w.A.VerifLockMembers()
+				done := make(chan struct{})
+				go func() { w.apply(Op{Op: "unsub", C: "c1", T: "t"}); close(done) }()
+				if !waitGone(w) {
+					w.A.VerifUnlockMembers()
+					<-done
+					return
+				}
+				time.Sleep(2 * time.Millisecond)
+				w.A.VerifUnlockMembers()
+				w.apply(Op{Op: "sub", C: "c2", T: "t"})
+				<-done
+				evs := w.peer.Queue().Events
+				if !(len(evs) == 3 && evOf(evs[1]).K == "sub" && evOf(evs[2]).K == "unsub") {
+					return
+				}
+				w.apply(Op{Op: "fetch", Sent: true})
+				for id := 0; id < 3; id++ {
+					for _, o := range []Op{{Op: "srvrecv", ID: id, Acked: true}, {Op: "srvnext", Which: "pend", ID: id}, {Op: "cliack", ID: id}} {
+						if m := w.apply(o); m != "" {
+							res["drain_error"] = m
+							return
+						}
+					}
+				}
+				real, extra := w.realState()
+				rb := realBad(real, extra["localTopics"].(map[string]uint64))
+				if v, bad := rb["QuiescentView"]; bad {
+					ok = true
+					res["observed"] = v
+				}
+			}()
+			if ok {
+				break
+			}
+		}
+	}
+	b, _ := json.Marshal(res)
+	fmt.Println(string(b))
+}
+
+// probeSpin: the EventStream goroutine is between Send(ack) and the nextEventID write when B's membership reports A as
+// failed (sessionMgr.del closes the session); let it run on and watch what it does.  Not a clause of C16 (reported as
+// an incidental finding): as coded it neither calls Recv again nor ends, it spins in `select { case <-done: }`.
+func probeSpin() {
+	w := newWorld()
+	for _, o := range []Op{{Op: "hello", Mode: "ok", Clean: true}, {Op: "msg", P: 1}, {Op: "fetch", Sent: true}, {Op: "srvrecv", ID: 0, Acked: true}} {
+		if m := w.apply(o); m != "" {
+			fmt.Println(`{"kind":"probe","probe":"spin","error":"` + m + `"}`)
+			return
+		}
+	}
+	l := w.cur
+	w.B.VerifInjectMemberEvent(serf.EventMemberFailed, "A")
+	time.Sleep(20 * time.Millisecond) // EventStream's watcher goroutine sees the closed session and closes `done`
+	var ru0, ru1 syscall.Rusage
+	syscall.Getrusage(syscall.RUSAGE_SELF, &ru0)
+	t0 := time.Now()
+	l.srvGateGo <- struct{}{}
+	back := false
+	select {
+	case <-l.srvRecvAt:
+		back = true
+	case <-time.After(300 * time.Millisecond):
+	}
+	syscall.Getrusage(syscall.RUSAGE_SELF, &ru1)
+	cpu := time.Duration(ru1.Utime.Nano()-ru0.Utime.Nano()) + time.Duration(ru1.Stime.Nano()-ru0.Stime.Nano())
+	b, _ := json.Marshal(map[string]interface{}{"kind": "probe", "probe": "spin", "back_in_recv": back,
+		"wall_ms": time.Since(t0).Milliseconds(), "cpu_ms": cpu.Milliseconds(), "spinning": !back && cpu > 200*time.Millisecond})
+	fmt.Println(string(b))
+}
+
+// probeVariant finds out which of the proposed repairs the tree under test contains, by behaviour (three micro
+// scenarios on the real objects).  The answer only selects the model variant (CONSTANT Fixes) the replay is compared
+// with - "the model mirrors the code" - the replay itself then checks every transition against that variant.
+func probeVariant() {
+	fixes := []string{}
+	// (a) is nextEventID written before the ack is sent?
+	w := newWorld()
+	for _, o := range []Op{{Op: "hello", Mode: "ok", Clean: true}, {Op: "msg", P: 1}, {Op: "fetch", Sent: true}, {Op: "srvrecv", ID: 0, Acked: true}} {
+		if m := w.apply(o); m != "" {
+			fmt.Println(`{"kind":"probe","probe":"variant","error":"` + m + `"}`)
+			return
+		}
+	}
+	if sv, ok := w.B.VerifSession("A"); ok && sv.NextEventID == 1 {
+		fixes = append(fixes, "next_before_ack")
+	}
+	w.cleanup()
+	// (b) does a second handshake on a session that never had a stream ask for a clean start again?
+	w = newWorld()
+	fc := &fakeClient{w: w, mode: "lost"}
+	w.peer.InitStream(fc, sharedConn)
+	fc2 := &fakeClient{w: w, mode: "lost"}
+	w.peer.InitStream(fc2, sharedConn)
+	if fc.resp != nil && fc2.resp != nil && fc.resp.CleanStart && fc2.resp.CleanStart {
+		fixes = append(fixes, "unestablished_clean")
+	}
+	// (c) does a forwarded retained message with an empty payload remove the retained message on the receiver?
+	ev := &fed.Event{Id: 0, Event: &fed.Event_Message{Message: &fed.Message{TopicName: "r", Retained: true, Qos: 1}}}
+	if _, ok := w.B.VerifEventStreamHandler("A", ev); ok && w.bRet.GetRetainedMessage("r") == nil {
+		fixes = append(fixes, "retained_clear_removes")
+	}
+	w.cleanup()
+	b, _ := json.Marshal(map[string]interface{}{"kind": "probe", "probe": "variant", "fixes": fixes})
+	fmt.Println(string(b))
+}
+
 func main() {
 	workers := flag.Int("workers", 0, "")
 	raw := flag.Bool("raw", false, "stdin lines are plain JSON (replay) instead of TLA+ string literals")
 	flag.BoolVar(&autoNext, "autonext", false, "release the ack gate at once (model run with Fixes next_before_ack)")
+	probe := flag.String("probe", "", "run a schedule probe instead of a replay: hookrace")
+	tries := flag.Int("tries", 200, "")
 	flag.Parse()
 	var err error
 	sharedConn, err = grpc.NewClient("passthrough:///verif-fake", grpc.WithTransportCredentials(insecure.NewCredentials()))
 	if err != nil {
 		fmt.Fprintln(os.Stderr, "grpc.NewClient:", err)
 		os.Exit(2)
+	}
+	if *probe == "variant" {
+		probeVariant()
+		return
+	}
+	if *probe == "spin" {
+		probeSpin()
+		return
+	}
+	if *probe == "hookrace" {
+		probeHookRace(*tries)
+		return
 	}
 	if err := tc.Each(os.Stdin, *workers, *raw, nil, one); err != nil {
 		fmt.Fprintln(os.Stderr, err)
